@@ -1,265 +1,18 @@
 /-
-Helper lemmas for C20 (4/4): the replicate loop, the initialisation phase, `evolve`, and the
-reduction of a well-formed schedule to the canonical one.
+Helper lemmas for C20: one replicate, the replicate loop, the initialisation phase, `evolve` —
+for every schedule accepted by the dataflow analysis.
 -/
 import PybropsModel.Lemmas.ProgramLoop
 set_option autoImplicit false
 set_option linter.unusedSectionVars false
+set_option linter.unusedVariables false
 
 namespace Program
 section
 variable {σ V : Type} [DecidableEq V]
-variable {S : List Ref} {V0 : List (Option V)} {ops : Ops σ V} {cfg : Cfg V}
+variable {S : List Ref} {V0 : List (Option (View V))} {ops : Ops σ V} {cfg : Cfg V}
 
-theorem repsOf_zero (rep0 : Int) (li : Bool) (ng : Nat) : repsOf rep0 li ng 0 = [] := by simp [repsOf]
-
-theorem repsOf_succ (rep0 : Int) (li : Bool) (ng n : Nat) :
-    repsOf rep0 li ng (n + 1) = List.replicate (repLen li ng) (rep0 + 1) ++ repsOf (rep0 + 1) li ng n := by
-  unfold repsOf repLen
-  rw [List.range_succ_eq_map, List.flatMap_cons, List.flatMap_map]
-  congr 1
-  · simp
-  · apply List.flatMap_congr
-    intro r _
-    congr 1
-    simp only [Int.ofNat_eq_natCast, Nat.cast_succ]
-    ring
-
-theorem reps_spec (hS : S.length = 5) (hR : Respects S ops) (n : Nat) :
-    ∀ {st : State σ V}, Good S V0 st →
-    ∃ (st' : State σ V) (es : List (Event V)),
-      iter (execList (execE ops cfg canonical) canonical.evolveRep) n st = st' ∧ Good S V0 st' ∧
-      st'.trace = st.trace ++ es ∧ st'.rep = st.rep + n ∧
-      es.map (fun e => e.rep) = repsOf st.rep cfg.loginit cfg.ngen n ∧
-      (∀ e ∈ es, (cfg.loginit = false → e.kind ≠ .log .initialize) ∧ e.kind ≠ .init) ∧
-      ∀ (R : Item V → Item V → Bool), ReflOnRefs R → ∀ (rest : List (Event V)),
-        checkReps R V0 cfg.loginit cfg.ngen n (es ++ rest) = some rest := by
-  induction n with
-  | zero =>
-    intro st g
-    exact ⟨st, [], rfl, g, by simp, by simp, by simp [repsOf_zero], by simp,
-      fun R _ rest => by simp [checkReps]⟩
-  | succ n ih =>
-    intro st g
-    obtain ⟨s1, es1, q1, g1, tr1, rp1, len1, all1, chk1⟩ := rep_spec (cfg := cfg) hS hR g
-    obtain ⟨s2, es2, q2, g2, tr2, rp2, reps2, all2, chk2⟩ := ih g1
-    refine ⟨s2, es1 ++ es2, ?_, g2, ?_, ?_, ?_, ?_, ?_⟩
-    · show iter _ n (execList (execE ops cfg canonical) canonical.evolveRep st) = s2
-      rw [q1, q2]
-    · rw [tr2, tr1, List.append_assoc]
-    · rw [rp2, rp1]; push_cast; ring
-    · rw [List.map_append, reps2, rp1, repsOf_succ]
-      congr 1
-      rw [← len1]
-      apply List.eq_replicate_iff.mpr
-      refine ⟨by simp, ?_⟩
-      intro b hb
-      obtain ⟨e, he, rfl⟩ := List.mem_map.mp hb
-      exact (all1 e he).1
-    · intro e he
-      rcases List.mem_append.mp he with h | h
-      · exact (all1 e h).2
-      · exact all2 e h
-    · intro R hRR rest
-      rw [List.append_assoc]
-      simp only [checkReps, chk1 R hRR (es2 ++ rest)]
-      exact chk2 R hRR rest
-
-/-! ### initialisation phase -/
-
-/-- the references of the stored start containers once `evolve` has made sure the programme is
-    initialised: the given ones, or what the initialisation operator returns -/
-def startRefs (ops : Ops σ V) (st : State σ V) : List Ref :=
-  if st.start.all Option.isSome then st.start.filterMap id else (ops.init st.ost st.heap).2.2
-
-/-- assumptions on the state in which `evolve` is called -/
-structure Ready (ops : Ops σ V) (st : State σ V) : Prop where
-  nbad : st.bad = false
-  startLen : st.start.length = 5
-  startValid : ∀ a, some a ∈ st.start → a < st.heap.length
-  /-- if the programme is not initialised, the initialisation operator returns five valid
-      containers and does not shrink the heap -/
-  initOK : st.start.all Option.isSome = false →
-    (ops.init st.ost st.heap).2.2.length = 5 ∧ st.heap.length ≤ (ops.init st.ost st.heap).2.1.length ∧
-    ∀ a ∈ (ops.init st.ost st.heap).2.2, a < (ops.init st.ost st.heap).2.1.length
-  /-- working variables left over from earlier calls are not start containers -/
-  regsOK : ∀ r a, st.regs r = some a → a < st.heap.length ∧ a ∉ startRefs ops st
-
-theorem all_isSome_eq (l : List (Option Ref)) (h : l.all Option.isSome = true) :
-    l = (l.filterMap id).map some := by
-  induction l with
-  | nil => rfl
-  | cons a l ih =>
-    simp only [List.all_cons, Bool.and_eq_true] at h
-    cases a with
-    | none => simp at h
-    | some a =>
-      simp only [List.filterMap_cons, id, List.map_cons]
-      exact congrArg (some a :: ·) (ih h.2)
-
-def initEvent (ops : Ops σ V) (cfg : Cfg V) (st : State σ V) : Event V :=
-  { kind := .init, t := st.t, tmax := cfg.tmax, rep := st.rep, args := [], argVals := [],
-    rets := (ops.init st.ost st.heap).2.2,
-    retVals := vals (ops.init st.ost st.heap).2.1 (ops.init st.ost st.heap).2.2,
-    startVals := startVals st.heap st.start }
-
-def afterInit (ops : Ops σ V) (cfg : Cfg V) (st : State σ V) : State σ V :=
-  { st with ost := (ops.init st.ost st.heap).1, heap := (ops.init st.ost st.heap).2.1,
-            start := (ops.init st.ost st.heap).2.2.map some,
-            trace := st.trace ++ [initEvent ops cfg st] }
-
-theorem pre_spec {st : State σ V} (hr : Ready ops st) :
-    ∃ (st' : State σ V) (es : List (Event V)) (V0 : List (Option V)),
-      execList (execE ops cfg canonical) canonical.evolvePre st = st' ∧
-      Good (startRefs ops st) V0 st' ∧ st'.trace = st.trace ++ es ∧ st'.rep = st.rep ∧
-      (startRefs ops st).length = 5 ∧ V0.length = 5 ∧ V0.all Option.isSome = true ∧
-      ((es = [] ∧ V0 = startVals st.heap st.start) ∨
-       (es = [initEvent ops cfg st] ∧ (initEvent ops cfg st).retVals = V0)) := by
-  have hE : execList (execE ops cfg canonical) canonical.evolvePre st = execS ops cfg .initIfNeeded st := rfl
-  cases hall : st.start.all Option.isSome with
-  | true =>
-    have hS : startRefs ops st = st.start.filterMap id := by simp [startRefs, hall]
-    have hst := all_isSome_eq _ hall
-    have hlen : (startRefs ops st).length = 5 := by
-      rw [hS]
-      have := congrArg List.length hst
-      rw [List.length_map] at this
-      rw [← this, hr.startLen]
-    have hvalid : ∀ s ∈ startRefs ops st, s < st.heap.length := by
-      intro s hs
-      apply hr.startValid
-      rw [hst, ← hS]
-      exact List.mem_map.mpr ⟨s, hs, rfl⟩
-    refine ⟨st, [], vals st.heap (startRefs ops st), ?_, ?_, by simp, rfl, hlen, ?_, ?_, ?_⟩
-    · rw [hE]; simp [execS, hr.nbad, hall]
-    · exact ⟨hr.nbad, by rw [hS]; exact hst, hvalid, rfl, hr.regsOK⟩
-    · rw [vals_length, hlen]
-    · exact vals_all_some _ _ hvalid
-    · left
-      refine ⟨rfl, ?_⟩
-      conv_rhs => rw [hst]
-      rw [startVals_map_some, hS]
-  | false =>
-    have hS : startRefs ops st = (ops.init st.ost st.heap).2.2 := by simp [startRefs, hall]
-    obtain ⟨i1, i2, i3⟩ := hr.initOK hall
-    refine ⟨afterInit ops cfg st, [initEvent ops cfg st],
-      vals (ops.init st.ost st.heap).2.1 (ops.init st.ost st.heap).2.2, ?_, ?_, rfl, ?_, ?_, ?_, ?_, ?_⟩
-    · rw [hE]; simp only [execS, hr.nbad, hall, i1, afterInit, initEvent]; simp
-    · refine ⟨hr.nbad, by rw [hS]; rfl, ?_, by rw [hS]; rfl, ?_⟩
-      · rw [hS]; exact i3
-      · intro r a h
-        have := hr.regsOK r a h
-        exact ⟨lt_of_lt_of_le this.1 i2, this.2⟩
-    · rfl
-    · rw [hS, i1]
-    · rw [vals_length, i1]
-    · exact vals_all_some _ _ i3
-    · right
-      exact ⟨rfl, rfl⟩
-
-/-! ### `evolve` -/
-
-theorem dropInitLogs_id (es : List (Event V)) (h : ∀ e ∈ es, e.kind ≠ .log .initialize) :
-    dropInitLogs es = es := by
-  unfold dropInitLogs
-  apply List.filter_eq_self.mpr
-  intro e he
-  simp [h e he]
-
-theorem specTrace_reps (R : Item V → Item V → Bool) (nrep ngen : Nat) (li : Bool)
-    (V0 Vg : List (Option V)) (es : List (Event V)) (hl : V0.length = 5) (hs : V0.all Option.isSome = true)
-    (hk : ∀ e ∈ es, (li = false → e.kind ≠ .log .initialize) ∧ e.kind ≠ .init)
-    (hc : checkReps R V0 li ngen nrep es = some [])
-    (hv : Vg = V0) : specTrace R nrep ngen li Vg es = true := by
-  subst hv
-  have hd : (if li then es else dropInitLogs es) = es := by
-    cases li with
-    | true => rfl
-    | false => exact dropInitLogs_id es (fun e he => (hk e he).1 rfl)
-  unfold specTrace
-  cases es with
-  | nil =>
-    simp only at hd ⊢
-    simp [hd, hl, hs, hc]
-  | cons e rest =>
-    have hne : (e.kind == EvKind.init) = false := by
-      simpa using (hk e (by simp)).2
-    simp only [hne]
-    simp only [Bool.false_eq_true, if_false]
-    simp [hd, hl, hs, hc]
-
-theorem specTrace_init (R : Item V → Item V → Bool) (nrep ngen : Nat) (li : Bool)
-    (V0 Vg : List (Option V)) (e0 : Event V) (es : List (Event V)) (hl : V0.length = 5)
-    (hs : V0.all Option.isSome = true) (h0 : e0.kind = .init) (hv : e0.retVals = V0)
-    (hk : ∀ e ∈ es, (li = false → e.kind ≠ .log .initialize) ∧ e.kind ≠ .init)
-    (hc : checkReps R V0 li ngen nrep es = some []) :
-    specTrace R nrep ngen li Vg (e0 :: es) = true := by
-  have hd : (if li then es else dropInitLogs es) = es := by
-    cases li with
-    | true => rfl
-    | false => exact dropInitLogs_id es (fun e he => (hk e he).1 rfl)
-  unfold specTrace
-  simp only [h0, beq_self_eq_true, if_true, hv]
-  simp [hd, hl, hs, hc]
-
-/-- everything that is proved about one `evolve` call of the canonical schedule -/
-theorem evolve_canonical {st : State σ V} (hr : Ready ops st) (hR : Respects (startRefs ops st) ops) :
-    ∃ (st' : State σ V) (es0 es1 : List (Event V)) (V0 : List (Option V)),
-      evolve ops cfg canonical st = st' ∧ Good (startRefs ops st) V0 st' ∧
-      st'.trace = st.trace ++ (es0 ++ es1) ∧ st'.rep = st.rep + cfg.nrep ∧
-      (st.start.all Option.isSome = true → es0 = [] ∧ V0 = startVals st.heap st.start) ∧
-      (st.start.all Option.isSome = false →
-        es0 = [initEvent ops cfg st] ∧ (initEvent ops cfg st).retVals = V0) ∧
-      es1.map (fun e => e.rep) = repsOf st.rep cfg.loginit cfg.ngen cfg.nrep ∧
-      (∀ (R : Item V → Item V → Bool), ReflOnRefs R →
-        checkReps R V0 cfg.loginit cfg.ngen cfg.nrep es1 = some []) ∧
-      (∀ (R : Item V → Item V → Bool), ReflOnRefs R →
-        specTrace R cfg.nrep cfg.ngen cfg.loginit (startVals st.heap st.start) (es0 ++ es1) = true) ∧
-      (∀ e ∈ es1, e.kind ≠ .init) := by
-  obtain ⟨s1, es0, V0, q1, g1, tr1, rp1, hS, hl, hs, hcase⟩ := pre_spec (cfg := cfg) hr
-  obtain ⟨s2, es1, q2, g2, tr2, rp2, reps2, all2, chk2⟩ := reps_spec (cfg := cfg) hS hR cfg.nrep g1
-  have chk : ∀ (R : Item V → Item V → Bool), ReflOnRefs R →
-      checkReps R V0 cfg.loginit cfg.ngen cfg.nrep es1 = some [] := by
-    intro R hRR
-    have := chk2 R hRR []
-    rwa [List.append_nil] at this
-  refine ⟨s2, es0, es1, V0, ?_, g2, ?_, ?_, ?_, ?_, ?_, chk, ?_, fun e he => (all2 e he).2⟩
-  · show execList (execE ops cfg canonical) canonical.evolvePost
-        (iter (execList (execE ops cfg canonical) canonical.evolveRep) cfg.nrep
-          (execList (execE ops cfg canonical) canonical.evolvePre st)) = s2
-    rw [q1, q2]; rfl
-  · rw [tr2, tr1, List.append_assoc]
-  · rw [rp2, rp1]
-  · intro hall
-    rcases hcase with h | ⟨he, _⟩
-    · exact h
-    · exfalso
-      -- an initialisation event is only recorded when the programme was not initialised
-      have : s1.trace = st.trace := by
-        rw [← q1]
-        show (execS ops cfg .initIfNeeded st).trace = st.trace
-        simp [execS, hr.nbad, hall]
-      rw [tr1, he] at this
-      simpa using congrArg List.length this
-  · intro hall
-    rcases hcase with ⟨h, _⟩ | h
-    · exfalso
-      have : s1.trace = st.trace ++ [initEvent ops cfg st] := by
-        rw [← q1]
-        show (execS ops cfg .initIfNeeded st).trace = _
-        simp [execS, hr.nbad, hall, (hr.initOK hall).1, initEvent]
-      rw [tr1, h] at this
-      simpa using congrArg List.length this
-    · exact h
-  · rw [reps2, rp1]
-  · intro R hRR
-    rcases hcase with ⟨h0, hv⟩ | ⟨he, hv⟩
-    · rw [h0, List.nil_append]
-      exact specTrace_reps R _ _ _ V0 _ es1 hl hs all2 (chk R hRR) hv.symm
-    · rw [he]
-      exact specTrace_init R _ _ _ V0 _ _ es1 hl hs rfl hv all2 (chk R hRR)
-
-/-! ### schedules that differ from the canonical one by no-op statements -/
+/-! ### no-op statements -/
 
 theorem isSkip_eq {s : Stmt} (h : s.isSkip = true) : s = .skip := by
   cases s <;> simp [Stmt.isSkip] at h ⊢
@@ -289,96 +42,531 @@ theorem execR_skip (sc : Schedule) (st : State σ V) : execR ops cfg sc .skip st
 theorem execE_skip (sc : Schedule) (st : State σ V) : execE ops cfg sc .skip st = st :=
   execS_skip (ops := ops) (cfg := cfg) st
 
-theorem execR_strip (sc : Schedule) : execR ops cfg sc.strip = execR ops cfg sc := by
-  funext s st
-  cases s <;> try rfl
-  show (if st.bad then st else execList (execS ops cfg) (strip sc.reset) st) = _
-  rw [execList_strip _ (fun st => execS_skip (ops := ops) (cfg := cfg) st)]
-  rfl
+theorem execList_of_strip_nil (f : Stmt → State σ V → State σ V) (hskip : ∀ st, f .skip st = st)
+    (l : List Stmt) (h : strip l = []) (st : State σ V) : execList f l st = st := by
+  rw [← execList_strip f hskip, h]; rfl
 
-theorem advance_strip (sc : Schedule) : advance ops cfg sc.strip = advance ops cfg sc := by
-  funext st
-  have hf : ∀ l, execList (execR ops cfg sc.strip) (strip l) = execList (execR ops cfg sc) l := by
-    intro l; funext st
-    rw [execR_strip, execList_strip _ (fun st => execR_skip sc st)]
-  show execList (execR ops cfg sc.strip) (strip sc.advancePost)
-      (iter (execList (execR ops cfg sc.strip) (strip sc.advanceGen)) cfg.ngen
-        (execList (execR ops cfg sc.strip) (strip sc.advancePre) st)) = _
-  rw [hf, hf, hf]
-  rfl
+theorem execList_append (f : Stmt → State σ V → State σ V) (l1 l2 : List Stmt) (st : State σ V) :
+    execList f (l1 ++ l2) st = execList f l2 (execList f l1 st) := by
+  simp [execList, List.foldl_append]
 
-theorem execE_strip (sc : Schedule) : execE ops cfg sc.strip = execE ops cfg sc := by
-  funext s st
-  by_cases h : s = .callAdvance
-  · subst h
-    show (if st.bad then st else advance ops cfg sc.strip st) = _
-    rw [advance_strip]
-    rfl
-  · have : ∀ sc' : Schedule, execE ops cfg sc' s st = execR ops cfg sc' s st := by
-      intro sc'
-      cases s <;> first | rfl | exact absurd rfl h
-    rw [this, this, execR_strip]
+/-- `advance` of a schedule whose loop is all there is to it -/
+theorem advance_eq (sc : Schedule) (he : wfEmpty sc = true) {st : State σ V} (n : Nat)
+    (hn : st.ngen = some n) :
+    advance ops cfg sc st = iter (execList (execR ops cfg sc) sc.advanceGen) n st := by
+  simp only [wfEmpty, Bool.and_eq_true, beq_iff_eq] at he
+  unfold advance
+  rw [execList_of_strip_nil _ (fun st => execR_skip sc st) _ he.1.2]
+  simp only [hn]
+  rw [execList_of_strip_nil _ (fun st => execR_skip sc st) _ he.2]
 
-theorem evolve_strip (sc : Schedule) (st : State σ V) :
-    evolve ops cfg sc.strip st = evolve ops cfg sc st := by
-  have hf : ∀ l, execList (execE ops cfg sc.strip) (strip l) = execList (execE ops cfg sc) l := by
-    intro l; funext st
-    rw [execE_strip, execList_strip _ (fun st => execE_skip sc st)]
-  show execList (execE ops cfg sc.strip) (strip sc.evolvePost)
-      (iter (execList (execE ops cfg sc.strip) (strip sc.evolveRep)) cfg.nrep
-        (execList (execE ops cfg sc.strip) (strip sc.evolvePre) st)) = _
-  rw [hf, hf, hf]
-  rfl
+/-! ### one replicate -/
 
-theorem evolve_of_wellFormed (sc : Schedule) (h : WellFormed sc = true) (st : State σ V) :
-    evolve ops cfg sc st = evolve ops cfg canonical st := by
-  have : sc.strip = canonical := by simpa [WellFormed] using h
-  rw [← evolve_strip, this]
+/-- number of events of one replicate -/
+def repLen (loginit : Bool) (ngen : Nat) : Nat := 1 + (if loginit then 1 else 0) + 8 * ngen
 
-/-! ### the classical frame condition implies `Respects` for every set of existing cells -/
+theorem splitAdvance_eq {l body : List Stmt} (h : splitAdvance l = some body) :
+    strip l = body ++ [.callAdvance] := by
+  unfold splitAdvance at h
+  split at h
+  · rename_i rest hrev
+    simp only [Option.some.injEq] at h
+    subst h
+    have := congrArg List.reverse hrev
+    simpa using this
+  · cases h
 
-/-- operators and logbook may mutate what they are handed and allocate — nothing else -/
-structure Frame (ops : Ops σ V) : Prop where
-  op : ∀ (k : OpK) (s : σ) (h : Heap V) (as : List Ref) (t tm : Nat), (∀ a ∈ as, a < h.length) →
-      h.length ≤ (ops.op k s h as t tm).2.1.length ∧
-      (∀ x, x < h.length → x ∉ as → (ops.op k s h as t tm).2.1[x]? = h[x]?) ∧
-      (∀ a ∈ (ops.op k s h as t tm).2.2, a ∈ as ∨ (h.length ≤ a ∧ a < (ops.op k s h as t tm).2.1.length)) ∧
-      (ops.op k s h as t tm).2.2.length = arity k
-  log : ∀ (k : LogK) (s : σ) (h : Heap V) (as : List Ref) (t tm : Nat) (rp : Int), (∀ a ∈ as, a < h.length) →
-      h.length ≤ (ops.log k s h as t tm rp).2.length ∧
-      (∀ x, x < h.length → x ∉ as → (ops.log k s h as t tm rp).2[x]? = h[x]?)
+theorem repEntry_conc (st : State σ V) :
+    Conc cfg.depth V0 cfg.loginit [] 0 st.rep st.trace repEntry st := by
+  refine ⟨rfl, ?_, by simp [TRel, repEntry], by simp [repEntry], ?_, ⟨[], by simp, by simp [repEntry]⟩⟩
+  · intro r tok h; simp [repEntry] at h
+  · intro tok i h; simp [repEntry] at h
 
-theorem Frame.respects (hF : Frame ops) (S : List Ref) : Respects S ops := by
-  constructor
-  · intro k s h as t tm hS has
-    obtain ⟨h1, h2, h3, h4⟩ := hF.op k s h as t tm (fun a ha => (has a ha).1)
-    refine ⟨h1, ?_, ?_, h4⟩
-    · intro x hx
-      exact h2 x (hS x hx) (fun hin => (has x hin).2 hx)
-    · intro a ha
-      rcases h3 a ha with hin | ⟨hge, hlt⟩
-      · exact ⟨lt_of_lt_of_le (has a hin).1 h1, (has a hin).2⟩
-      · exact ⟨hlt, fun hin => absurd (hS a hin) (not_lt.mpr hge)⟩
-  · intro k s h as t tm rp hS has
-    obtain ⟨h1, h2⟩ := hF.log k s h as t tm rp (fun a ha => (has a ha).1)
-    exact ⟨h1, fun x hx => h2 x (hS x hx) (fun hin => (has x hin).2 hx)⟩
+theorem pristine_take {e : SEv} {c : Event (View V)} {ρ : List Ref} {base : Nat} {rep0 : Int}
+    (m : EvMatch V0 ρ base rep0 e c) (hV : V0.length = 5) (hp : e.pristine.take 5 = slots) :
+    c.argVals.take 5 = V0 := by
+  apply List.ext_getElem?
+  intro j
+  by_cases hj : j < 5
+  · have : e.pristine[j]? = some (some j) := by
+      have := congrArg (fun l => l[j]?) hp
+      simp only [List.getElem?_take, hj, if_true] at this
+      rw [this]
+      simp only [slots]
+      interval_cases j <;> rfl
+    rw [List.getElem?_take, if_pos hj, ← m.pristine j j this]
+  · rw [List.getElem?_take, if_neg hj, List.getElem?_eq_none (by omega)]
 
-/-- the state after `evolve` is again a state in which `evolve` may be called -/
-theorem Good.ready {st : State σ V} (hS : S.length = 5) (g : Good S V0 st) :
-    Ready ops st ∧ startRefs ops st = S := by
-  have hall : st.start.all Option.isSome = true := by
-    rw [g.start]; simp
-  have hrefs : startRefs ops st = S := by
-    simp only [startRefs, g.start]
-    simp [List.filterMap_map]
-  refine ⟨⟨g.nbad, by rw [g.start, List.length_map, hS], ?_, ?_, ?_⟩, hrefs⟩
-  · intro a ha
-    rw [g.start] at ha
-    obtain ⟨b, hb, e⟩ := List.mem_map.mp ha
-    cases e
-    exact g.svalid _ hb
-  · intro h; rw [hall] at h; cases h
-  · rw [hrefs]; exact g.regs
+theorem rep_spec (hR : Respects S ops) (hS : S.length = 5) (sc : Schedule) (hg : wfGen sc = true)
+    (he : wfEmpty sc = true) (hrp : wfRep sc = true) (n : Nat) {st : State σ V} (g : Good cfg.depth S V0 st)
+    (hn : st.ngen = some n) :
+    ∃ (st' : State σ V) (es : List (Event (View V))),
+      execList (execE ops cfg sc) sc.evolveRep st = st' ∧ Good cfg.depth S V0 st' ∧
+      st'.trace = st.trace ++ es ∧ st'.rep = st.rep + 1 ∧ st'.ngen = some n ∧
+      es.length = repLen cfg.loginit n ∧
+      (∀ e ∈ es, e.rep = st.rep + 1 ∧ (cfg.loginit = false → e.kind ≠ .log .initialize) ∧ e.kind ≠ .init) ∧
+      (∃ cur : List Ref, five.map st'.regs = cur.map some ∧ cur.length = 5) ∧
+      ∀ (R : Item (View V) → Item (View V) → Bool), ReflOnRefs R → ∀ (rest : List (Event (View V))),
+        checkRep R V0 cfg.loginit n (es ++ rest) = some rest := by
+  have hV : V0.length = 5 := by rw [← g.svals, vals_length, hS]
+  unfold wfRep at hrp
+  cases hsp : splitAdvance sc.evolveRep with
+  | none => simp [hsp] at hrp
+  | some body =>
+  simp only [hsp] at hrp
+  generalize hA : symList (symR sc) body repEntry = a1 at hrp
+  simp only [Bool.and_eq_true, beq_iff_eq] at hrp
+  obtain ⟨⟨⟨hok, ht⟩, hrep⟩, hm⟩ := hrp
+  cases hout : resolve a1.regs five with
+  | none => simp [hout] at hm
+  | some out =>
+  simp only [hout] at hm
+  split at hm
+  · rename_i x1 x2 out' e0 e1 hx1 hevs
+    cases hx1
+    simp only [Bool.and_eq_true, beq_iff_eq, Bool.not_eq_true'] at hm
+    obtain ⟨⟨⟨⟨⟨⟨⟨⟨⟨⟨⟨K0, G0⟩, T0⟩, P0⟩, PR0⟩, O0⟩, L0⟩, K1⟩, G1⟩, T1⟩, P1⟩, A1⟩ := hm
+    -- the body up to the call of `advance`
+    have hstrip := splitAdvance_eq hsp
+    have hE : execList (execE ops cfg sc) sc.evolveRep st =
+        execE ops cfg sc .callAdvance (execList (execE ops cfg sc) body st) := by
+      rw [← execList_strip _ (fun st => execE_skip sc st), hstrip, execList_append]
+      rfl
+    have hok' : (symList (symR sc) body repEntry).ok = true := by rw [hA]; exact hok
+    obtain ⟨ρ', _, hc, g1, ng1⟩ := symBlockE_sound (cfg := cfg) hR hS sc body
+      (repEntry_conc (V0 := V0) (cfg := cfg) st) g rfl hok'
+    rw [hA] at hc
+    generalize execList (execE ops cfg sc) body st = s1 at hE hc g1 ng1
+    have hT1 : s1.t = 1 := by have := hc.t; rw [ht] at this; exact this
+    have hP1 : s1.rep = st.rep + 1 := by have := hc.rep; rw [hrep] at this; simpa using this
+    have hN1 : s1.ngen = some n := ng1.trans hn
+    obtain ⟨cur, hres, hcur⟩ := resolve_rel hc.regs five out hout
+    have hfive : five.map s1.regs = cur.map some := resolve_map _ _ _ hres
+    obtain ⟨ces, htr, hall⟩ := hc.trace
+    rw [hevs] at hall
+    have hv0 : visible cfg.loginit e0 = true := by simp [visible, G0]
+    have hv1 : visible cfg.loginit e1 = cfg.loginit := by simp [visible, G1]
+    -- `advance`
+    have hadv : execE ops cfg sc .callAdvance s1 = iter (execList (execR ops cfg sc) sc.advanceGen) n s1 := by
+      show (if s1.bad then s1 else advance ops cfg sc s1) = _
+      rw [g1.nbad]
+      exact advance_eq sc he n hN1
+    rw [hadv] at hE
+    cases hli : cfg.loginit with
+    | true =>
+      have hv1' : visible cfg.loginit e1 = true := by rw [hv1, hli]
+      have hfil : [e0, e1].filter (visible cfg.loginit) = [e0, e1] := by
+        simp [hv0, hv1']
+      rw [hfil] at hall
+      cases hall with | cons m0 hall =>
+      cases hall with | cons m1 hall =>
+      cases hall
+      rename_i c0 c1
+      have hcur0 : cur = c0.rets := wire m0.rets hcur O0.symm
+      have l5 : cur.length = 5 := by rw [hcur0, ← tokRefs_length m0.rets, L0]
+      obtain ⟨s2, es, cur2, q2, g2, tr2, _, rp2, ng2, f2, l2, len2, all2, chk2⟩ :=
+        gens_spec (cfg := cfg) hR hS sc hg n g1 cur hfive l5
+      rw [q2] at hE
+      have t0 : c0.t = 0 := by have := m0.t; rw [T0] at this; exact this
+      have t1 : c1.t = 0 := by have := m1.t; rw [T1] at this; exact this
+      have hd1 : evOk V0 (.op .evaluate) 0 c0 = true := by simp [evOk, m0.kind, K0, t0, m0.start]
+      have hd2 : c0.argVals.take 5 = V0 := pristine_take m0 hV PR0
+      have hd3 : c0.retItems.length = 5 := by rw [retItems_length _ m0.retVals, ← hcur0, l5]
+      have log_ok : evOk V0 (.log .initialize) 0 c1 = true := by
+        simp [evOk, m1.kind, K1, t1, m1.start]
+      have a1' : c1.args.take 5 = c0.rets := wire m0.rets (tokRefs_take m1.args 5) A1
+      refine ⟨s2, c0 :: c1 :: es, hE, g2, ?_, ?_, ?_, ?_, ?_, ⟨cur2, f2, l2⟩, ?_⟩
+      · rw [tr2, htr]; simp
+      · rw [rp2, hP1]
+      · rw [ng2, hN1]
+      · simp [repLen, len2]; omega
+      · intro e hmem
+        simp only [List.mem_cons] at hmem
+        rcases hmem with rfl | rfl | hmem
+        · exact ⟨by rw [m0.rep, P0]; simp, fun h => by simp at h, by rw [m0.kind, K0]; decide⟩
+        · exact ⟨by rw [m1.rep, P1]; simp, fun h => by simp at h, by rw [m1.kind, K1]; decide⟩
+        · have := all2 e hmem
+          rw [hP1] at this
+          exact ⟨this.1, fun _ => this.2.1, this.2.2⟩
+      · intro R hRR rest
+        have hh : handed R c0.retItems (c1.argItems.take 5) = true :=
+          handed_of_fst R hRR _ _ (by rw [retItems_fst _ m0.retVals, argItems_take_fst _ m1.argVals, a1'])
+        have := chk2 R hRR c0.retItems rest (by rw [retItems_fst _ m0.retVals, hcur0])
+        rw [hT1] at this
+        simp only [List.cons_append, checkRep, hd1, hd2, hd3, beq_self_eq_true, Bool.and_self, if_true, log_ok, hh,
+          this]
+    | false =>
+      have hv1' : visible cfg.loginit e1 = false := by rw [hv1, hli]
+      have hfil : [e0, e1].filter (visible cfg.loginit) = [e0] := by
+        simp [hv0, hv1']
+      rw [hfil] at hall
+      cases hall with | cons m0 hall =>
+      cases hall
+      rename_i c0
+      have hcur0 : cur = c0.rets := wire m0.rets hcur O0.symm
+      have l5 : cur.length = 5 := by rw [hcur0, ← tokRefs_length m0.rets, L0]
+      obtain ⟨s2, es, cur2, q2, g2, tr2, _, rp2, ng2, f2, l2, len2, all2, chk2⟩ :=
+        gens_spec (cfg := cfg) hR hS sc hg n g1 cur hfive l5
+      rw [q2] at hE
+      have t0 : c0.t = 0 := by have := m0.t; rw [T0] at this; exact this
+      have hd1 : evOk V0 (.op .evaluate) 0 c0 = true := by simp [evOk, m0.kind, K0, t0, m0.start]
+      have hd2 : c0.argVals.take 5 = V0 := pristine_take m0 hV PR0
+      have hd3 : c0.retItems.length = 5 := by rw [retItems_length _ m0.retVals, ← hcur0, l5]
+      refine ⟨s2, c0 :: es, hE, g2, ?_, ?_, ?_, ?_, ?_, ⟨cur2, f2, l2⟩, ?_⟩
+      · rw [tr2, htr]; simp
+      · rw [rp2, hP1]
+      · rw [ng2, hN1]
+      · simp [repLen, len2]; omega
+      · intro e hmem
+        simp only [List.mem_cons] at hmem
+        rcases hmem with rfl | hmem
+        · exact ⟨by rw [m0.rep, P0]; simp, fun _ => by rw [m0.kind, K0]; decide, by rw [m0.kind, K0]; decide⟩
+        · have := all2 e hmem
+          rw [hP1] at this
+          exact ⟨this.1, fun _ => this.2.1, this.2.2⟩
+      · intro R hRR rest
+        have := chk2 R hRR c0.retItems rest (by rw [retItems_fst _ m0.retVals, hcur0])
+        rw [hT1] at this
+        simp only [List.cons_append, checkRep, hd1, hd2, hd3, beq_self_eq_true, Bool.and_self, if_true, this]
+        simp
+  · simp at hm
+
+/-! ### the replicate loop -/
+
+theorem repsOf_zero (rep0 : Int) (li : Bool) (ng : Nat) : repsOf rep0 li ng 0 = [] := by simp [repsOf]
+
+theorem repsOf_succ (rep0 : Int) (li : Bool) (ng n : Nat) :
+    repsOf rep0 li ng (n + 1) = List.replicate (repLen li ng) (rep0 + 1) ++ repsOf (rep0 + 1) li ng n := by
+  unfold repsOf repLen
+  rw [List.range_succ_eq_map, List.flatMap_cons, List.flatMap_map]
+  congr 1
+  · simp
+  · apply List.flatMap_congr
+    intro r _
+    congr 1
+    simp only [Int.ofNat_eq_natCast, Nat.cast_succ]
+    ring
+
+theorem reps_spec (hR : Respects S ops) (hS : S.length = 5) (sc : Schedule) (hg : wfGen sc = true)
+    (he : wfEmpty sc = true) (hrp : wfRep sc = true) (ngen : Nat) (n : Nat) :
+    ∀ {st : State σ V}, Good cfg.depth S V0 st → st.ngen = some ngen →
+    ∃ (st' : State σ V) (es : List (Event (View V))),
+      iter (execList (execE ops cfg sc) sc.evolveRep) n st = st' ∧ Good cfg.depth S V0 st' ∧
+      st'.trace = st.trace ++ es ∧ st'.rep = st.rep + n ∧ st'.ngen = some ngen ∧
+      es.map (fun e => e.rep) = repsOf st.rep cfg.loginit ngen n ∧
+      (∀ e ∈ es, (cfg.loginit = false → e.kind ≠ .log .initialize) ∧ e.kind ≠ .init) ∧
+      (0 < n → ∃ cur : List Ref, five.map st'.regs = cur.map some ∧ cur.length = 5) ∧
+      ∀ (R : Item (View V) → Item (View V) → Bool), ReflOnRefs R → ∀ (rest : List (Event (View V))),
+        checkReps R V0 cfg.loginit ngen n (es ++ rest) = some rest := by
+  induction n with
+  | zero =>
+    intro st g hn
+    exact ⟨st, [], rfl, g, by simp, by simp, hn, by simp [repsOf_zero], by simp, by simp,
+      fun R _ rest => by simp [checkReps]⟩
+  | succ n ih =>
+    intro st g hn
+    obtain ⟨s1, es1, q1, g1, tr1, rp1, ng1, len1, all1, held1, chk1⟩ :=
+      rep_spec (cfg := cfg) hR hS sc hg he hrp ngen g hn
+    obtain ⟨s2, es2, q2, g2, tr2, rp2, ng2, reps2, all2, held2, chk2⟩ := ih g1 ng1
+    refine ⟨s2, es1 ++ es2, ?_, g2, ?_, ?_, ng2, ?_, ?_, ?_, ?_⟩
+    · show iter _ n (execList (execE ops cfg sc) sc.evolveRep st) = s2
+      rw [q1, q2]
+    · rw [tr2, tr1, List.append_assoc]
+    · rw [rp2, rp1]; push_cast; ring
+    · rw [List.map_append, reps2, rp1, repsOf_succ]
+      congr 1
+      rw [← len1]
+      apply List.eq_replicate_iff.mpr
+      refine ⟨by simp, ?_⟩
+      intro b hb
+      obtain ⟨e, he', rfl⟩ := List.mem_map.mp hb
+      exact (all1 e he').1
+    · intro e he'
+      rcases List.mem_append.mp he' with h | h
+      · exact (all1 e h).2
+      · exact all2 e h
+    · intro _
+      rcases Nat.eq_zero_or_pos n with h0 | hpos
+      · subst h0
+        have : s2 = s1 := by rw [← q2]; rfl
+        rw [this]; exact held1
+      · exact held2 hpos
+    · intro R hRR rest
+      rw [List.append_assoc]
+      simp only [checkReps, chk1 R hRR (es2 ++ rest)]
+      exact chk2 R hRR rest
+
+/-! ### initialisation phase -/
+
+/-- the references of the stored start containers once `evolve` has made sure the programme is
+    initialised: the given ones, or what the initialisation operator returns -/
+def startRefs (ops : Ops σ V) (st : State σ V) : List Ref :=
+  if st.start.all Option.isSome then st.start.filterMap id else (ops.init st.ost st.heap).2.2
+
+/-- the heap in which the start containers live once `evolve` has made sure the programme is
+    initialised, and its size -/
+def startHeap (ops : Ops σ V) (st : State σ V) : Heap (Cell V) :=
+  if st.start.all Option.isSome then st.heap else (ops.init st.ost st.heap).2.1
+
+def startN0 (ops : Ops σ V) (st : State σ V) : Nat :=
+  if st.start.all Option.isSome then st.n0 else (ops.init st.ost st.heap).2.1.length
+
+/-- assumptions on the state in which `evolve` is called: five start slots; once the programme is
+    initialised (by the caller or by the initialisation operator, which does not shrink the heap)
+    there are five start containers whose object graphs exist, lie in the part of the heap recorded
+    as existing at initialisation and are not referenced from elsewhere; the heap is well formed;
+    working variables left over from earlier calls refer to existing cells outside those graphs -/
+structure Ready (ops : Ops σ V) (st : State σ V) : Prop where
+  nbad : st.bad = false
+  startLen : st.start.length = 5
+  refs5 : (startRefs ops st).length = 5
+  grow : st.heap.length ≤ (startHeap ops st).length
+  wf : WFH (startHeap ops st)
+  n0le : startN0 ops st ≤ (startHeap ops st).length
+  region : ∀ x, InReg (startHeap ops st) (startRefs ops st) x → x < startN0 ops st
+  iso : Iso (startHeap ops st) (startRefs ops st)
+  regsOK : ∀ r a, st.regs r = some a → a < st.heap.length ∧ ¬ InReg (startHeap ops st) (startRefs ops st) a
+
+theorem all_isSome_eq (l : List (Option Ref)) (h : l.all Option.isSome = true) :
+    l = (l.filterMap id).map some := by
+  induction l with
+  | nil => rfl
+  | cons a l ih =>
+    simp only [List.all_cons, Bool.and_eq_true] at h
+    cases a with
+    | none => simp at h
+    | some a =>
+      simp only [List.filterMap_cons, id, List.map_cons]
+      exact congrArg (some a :: ·) (ih h.2)
+
+def initEvent (ops : Ops σ V) (cfg : Cfg V) (st : State σ V) : Event (View V) :=
+  { kind := .init, t := st.t, tmax := cfg.tmax, rep := st.rep, args := [], argVals := [],
+    rets := (ops.init st.ost st.heap).2.2,
+    retVals := vals cfg.depth (ops.init st.ost st.heap).2.1 (ops.init st.ost st.heap).2.2,
+    startVals := startVals cfg.depth st.heap st.start }
+
+def afterInit (ops : Ops σ V) (cfg : Cfg V) (st : State σ V) : State σ V :=
+  { st with ost := (ops.init st.ost st.heap).1, heap := (ops.init st.ost st.heap).2.1,
+            n0 := (ops.init st.ost st.heap).2.1.length,
+            start := (ops.init st.ost st.heap).2.2.map some,
+            trace := st.trace ++ [initEvent ops cfg st] }
+
+/-- `if not self.is_initialized(): self.initialize()` -/
+theorem init_spec {st : State σ V} (hr : Ready ops st) :
+    ∃ (st' : State σ V) (es : List (Event (View V))) (V0 : List (Option (View V))),
+      execS ops cfg .initIfNeeded st = st' ∧
+      Good cfg.depth (startRefs ops st) V0 st' ∧ st'.trace = st.trace ++ es ∧ st'.rep = st.rep ∧ st'.ngen = st.ngen ∧
+      st'.regs = st.regs ∧ (startRefs ops st).length = 5 ∧ V0.length = 5 ∧ V0.all Option.isSome = true ∧
+      ((st.start.all Option.isSome = true ∧ es = [] ∧ V0 = startVals cfg.depth st.heap st.start) ∨
+       (st.start.all Option.isSome = false ∧ es = [initEvent ops cfg st] ∧
+          (initEvent ops cfg st).retVals = V0)) := by
+  have hvalid : ∀ s ∈ startRefs ops st, s < (startHeap ops st).length :=
+    fun s hs => lt_of_lt_of_le (hr.region s (InReg.of_mem hs)) hr.n0le
+  cases hall : st.start.all Option.isSome with
+  | true =>
+    have hS : startRefs ops st = st.start.filterMap id := by simp [startRefs, hall]
+    have hH : startHeap ops st = st.heap := by simp [startHeap, hall]
+    have hN : startN0 ops st = st.n0 := by simp [startN0, hall]
+    have hst := all_isSome_eq _ hall
+    refine ⟨st, [], vals cfg.depth st.heap (startRefs ops st), ?_, ?_, by simp, rfl, rfl, rfl, hr.refs5, ?_, ?_, ?_⟩
+    · simp [execS, hr.nbad, hall]
+    · refine ⟨hr.nbad, by rw [hS]; exact hst, by rw [← hH]; exact hr.wf, by rw [← hH, ← hN]; exact hr.n0le,
+        ?_, by rw [← hH]; exact hr.iso, rfl, ?_⟩
+      · intro x hx; rw [← hN]; exact hr.region x (by rw [hH]; exact hx)
+      · intro r a h; have := hr.regsOK r a h; rw [hH] at this; exact this
+    · rw [vals_length, hr.refs5]
+    · exact vals_all_some _ _ _ (by rw [← hH]; exact hvalid)
+    · left
+      refine ⟨rfl, rfl, ?_⟩
+      conv_rhs => rw [hst]
+      rw [startVals_map_some, hS]
+  | false =>
+    have hS : startRefs ops st = (ops.init st.ost st.heap).2.2 := by simp [startRefs, hall]
+    have hH : startHeap ops st = (ops.init st.ost st.heap).2.1 := by simp [startHeap, hall]
+    have hN : startN0 ops st = (ops.init st.ost st.heap).2.1.length := by simp [startN0, hall]
+    have i1 : (ops.init st.ost st.heap).2.2.length = 5 := by rw [← hS]; exact hr.refs5
+    refine ⟨afterInit ops cfg st, [initEvent ops cfg st],
+      vals cfg.depth (ops.init st.ost st.heap).2.1 (ops.init st.ost st.heap).2.2, ?_, ?_, rfl, rfl, rfl, rfl,
+      hr.refs5, ?_, ?_, ?_⟩
+    · simp only [execS, hr.nbad, hall, i1, afterInit, initEvent]; simp
+    · have hwf : WFH (afterInit ops cfg st).heap := by
+        show WFH (ops.init st.ost st.heap).2.1
+        rw [← hH]; exact hr.wf
+      have hiso : Iso (afterInit ops cfg st).heap (startRefs ops st) := by
+        show Iso (ops.init st.ost st.heap).2.1 (startRefs ops st)
+        rw [← hH]; exact hr.iso
+      refine ⟨hr.nbad, by rw [hS]; rfl, hwf, le_refl _, ?_, hiso, by rw [hS]; rfl, ?_⟩
+      · intro x hx
+        have := hr.region x (by rw [hH]; exact hx)
+        rw [hN] at this; exact this
+      · intro r a h
+        have := hr.regsOK r a h
+        rw [hH] at this
+        have hg := hr.grow
+        rw [hH] at hg
+        exact ⟨lt_of_lt_of_le this.1 hg, this.2⟩
+    · rw [vals_length, i1]
+    · exact vals_all_some _ _ _ (by rw [← hH, ← hS]; exact hvalid)
+    · right
+      exact ⟨rfl, rfl, rfl⟩
+
+theorem Ready.with_ngen {st : State σ V} (hr : Ready ops st) (x : Option Nat) :
+    Ready ops { st with ngen := x } :=
+  ⟨hr.nbad, hr.startLen, hr.refs5, hr.grow, hr.wf, hr.n0le, hr.region, hr.iso, hr.regsOK⟩
+
+theorem execS_ngenDefault {st : State σ V} (hb : st.bad = false) :
+    execS ops cfg .ngenDefault st = { st with ngen := some (st.ngen.getD cfg.tmax) } := by
+  simp [execS, hb]
+
+theorem Good.with_ngen {st : State σ V} {d : Nat} (g : Good d S V0 st) (x : Option Nat) :
+    Good d S V0 { st with ngen := x } :=
+  ⟨g.nbad, g.start, g.wf, g.n0le, g.region, g.iso, g.svals, g.regs⟩
+
+/-- the statements of `evolve` before the replicate loop -/
+theorem pre_spec (sc : Schedule) (hp : wfPre sc = true) {st : State σ V} (hr : Ready ops st) :
+    ∃ (st' : State σ V) (es : List (Event (View V))) (V0 : List (Option (View V))),
+      execList (execE ops cfg sc) sc.evolvePre { st with ngen := cfg.ngen } = st' ∧
+      Good cfg.depth (startRefs ops st) V0 st' ∧ st'.trace = st.trace ++ es ∧ st'.rep = st.rep ∧
+      st'.ngen = effNgen sc cfg ∧ st'.regs = st.regs ∧
+      (startRefs ops st).length = 5 ∧ V0.length = 5 ∧ V0.all Option.isSome = true ∧
+      ((st.start.all Option.isSome = true ∧ es = [] ∧ V0 = startVals cfg.depth st.heap st.start) ∨
+       (st.start.all Option.isSome = false ∧ es = [initEvent ops cfg st] ∧
+          (initEvent ops cfg st).retVals = V0)) := by
+  have hstrip : execList (execE ops cfg sc) sc.evolvePre { st with ngen := cfg.ngen } =
+      execList (execE ops cfg sc) (strip sc.evolvePre) { st with ngen := cfg.ngen } :=
+    (execList_strip _ (fun st => execE_skip sc st) _ _).symm
+  rw [hstrip]
+  simp only [wfPre, Bool.or_eq_true, beq_iff_eq] at hp
+  rcases hp with (h | h) | h
+  · -- [initIfNeeded]
+    have hN : effNgen sc cfg = cfg.ngen := by simp [effNgen, HandlesNone, h, isNgenDefault]
+    obtain ⟨s1, es, V0, q, g, tr, rp, ng, rg, r⟩ := init_spec (cfg := cfg) (hr.with_ngen cfg.ngen)
+    rw [h, hN]
+    exact ⟨s1, es, V0, q, g, tr, rp, ng, rg, r⟩
+  · -- [ngenDefault, initIfNeeded]
+    have hN : effNgen sc cfg = some (cfg.ngen.getD cfg.tmax) := by
+      simp [effNgen, HandlesNone, h, isNgenDefault]
+    have hr1 : Ready ops { st with ngen := some (cfg.ngen.getD cfg.tmax) } := hr.with_ngen _
+    obtain ⟨s1, es, V0, q, g, tr, rp, ng, rg, r⟩ := init_spec (cfg := cfg) hr1
+    rw [h, hN]
+    refine ⟨s1, es, V0, ?_, g, tr, rp, ng, rg, r⟩
+    show execS ops cfg .initIfNeeded (execS ops cfg .ngenDefault { st with ngen := cfg.ngen }) = s1
+    rw [execS_ngenDefault (by exact hr.nbad)]
+    exact q
+  · -- [initIfNeeded, ngenDefault]
+    have hN : effNgen sc cfg = some (cfg.ngen.getD cfg.tmax) := by
+      simp [effNgen, HandlesNone, h, isNgenDefault]
+    obtain ⟨s1, es, V0, q, g, tr, rp, ng, rg, r⟩ := init_spec (cfg := cfg) (hr.with_ngen cfg.ngen)
+    rw [h, hN]
+    refine ⟨{ s1 with ngen := some (s1.ngen.getD cfg.tmax) }, es, V0, ?_, g.with_ngen _, tr, rp, ?_, rg, r⟩
+    · show execS ops cfg .ngenDefault (execS ops cfg .initIfNeeded { st with ngen := cfg.ngen }) = _
+      rw [q, execS_ngenDefault g.nbad]
+    · show some (s1.ngen.getD cfg.tmax) = _
+      rw [ng]
+
+/-! ### `evolve` -/
+
+theorem dropInitLogs_id (es : List (Event (View V))) (h : ∀ e ∈ es, e.kind ≠ .log .initialize) :
+    dropInitLogs es = es := by
+  unfold dropInitLogs
+  apply List.filter_eq_self.mpr
+  intro e he
+  simp [h e he]
+
+theorem specTrace_reps (R : Item (View V) → Item (View V) → Bool) (nrep ngen : Nat) (li : Bool)
+    (V0 Vg : List (Option (View V))) (es : List (Event (View V))) (hl : V0.length = 5) (hs : V0.all Option.isSome = true)
+    (hk : ∀ e ∈ es, (li = false → e.kind ≠ .log .initialize) ∧ e.kind ≠ .init)
+    (hc : checkReps R V0 li ngen nrep es = some [])
+    (hv : Vg = V0) : specTrace R nrep ngen li Vg es = true := by
+  subst hv
+  have hd : (if li then es else dropInitLogs es) = es := by
+    cases li with
+    | true => rfl
+    | false => exact dropInitLogs_id es (fun e he => (hk e he).1 rfl)
+  unfold specTrace
+  cases es with
+  | nil =>
+    simp only at hd ⊢
+    simp [hd, hl, hs, hc]
+  | cons e rest =>
+    have hne : (e.kind == EvKind.init) = false := by
+      simpa using (hk e (by simp)).2
+    simp only [hne]
+    simp only [Bool.false_eq_true, if_false]
+    simp [hd, hl, hs, hc]
+
+theorem specTrace_init (R : Item (View V) → Item (View V) → Bool) (nrep ngen : Nat) (li : Bool)
+    (V0 Vg : List (Option (View V))) (e0 : Event (View V)) (es : List (Event (View V))) (hl : V0.length = 5)
+    (hs : V0.all Option.isSome = true) (h0 : e0.kind = .init) (hv : e0.retVals = V0)
+    (hk : ∀ e ∈ es, (li = false → e.kind ≠ .log .initialize) ∧ e.kind ≠ .init)
+    (hc : checkReps R V0 li ngen nrep es = some []) :
+    specTrace R nrep ngen li Vg (e0 :: es) = true := by
+  have hd : (if li then es else dropInitLogs es) = es := by
+    cases li with
+    | true => rfl
+    | false => exact dropInitLogs_id es (fun e he => (hk e he).1 rfl)
+  unfold specTrace
+  simp only [h0, beq_self_eq_true, if_true, hv]
+  simp [hd, hl, hs, hc]
+
+/-- everything that is proved about one `evolve` call of a well-formed schedule; `n` is the
+    generation count the call works with -/
+theorem evolve_wf (sc : Schedule) (hwf : WellFormed sc = true) {st : State σ V} (hr : Ready ops st)
+    (hR : Respects (startRefs ops st) ops) (n : Nat) (hn : effNgen sc cfg = some n) :
+    ∃ (st' : State σ V) (es0 es1 : List (Event (View V))) (V0 : List (Option (View V))),
+      evolve ops cfg sc st = st' ∧ Good cfg.depth (startRefs ops st) V0 st' ∧
+      st'.trace = st.trace ++ (es0 ++ es1) ∧ st'.rep = st.rep + cfg.nrep ∧
+      (st.start.all Option.isSome = true → es0 = [] ∧ V0 = startVals cfg.depth st.heap st.start) ∧
+      (st.start.all Option.isSome = false →
+        es0 = [initEvent ops cfg st] ∧ (initEvent ops cfg st).retVals = V0) ∧
+      es1.map (fun e => e.rep) = repsOf st.rep cfg.loginit n cfg.nrep ∧
+      (∀ (R : Item (View V) → Item (View V) → Bool), ReflOnRefs R →
+        checkReps R V0 cfg.loginit n cfg.nrep es1 = some []) ∧
+      (∀ (R : Item (View V) → Item (View V) → Bool), ReflOnRefs R →
+        specTrace R cfg.nrep n cfg.loginit (startVals cfg.depth st.heap st.start) (es0 ++ es1) = true) ∧
+      (∀ e ∈ es1, e.kind ≠ .init) ∧
+      (0 < cfg.nrep → ∃ cur : List Ref, five.map st'.regs = cur.map some ∧ cur.length = 5) ∧
+      (cfg.nrep = 0 → st'.regs = st.regs) ∧
+      (startRefs ops st).length = 5 := by
+  simp only [WellFormed, Bool.and_eq_true] at hwf
+  obtain ⟨⟨⟨hpre, hempty⟩, hgen⟩, hrep⟩ := hwf
+  obtain ⟨s1, es0, V0, q1, g1, tr1, rp1, ng1, rg1, hS, hl, hs, hcase⟩ := pre_spec (cfg := cfg) sc hpre hr
+  obtain ⟨s2, es1, q2, g2, tr2, rp2, _, reps2, all2, held2, chk2⟩ :=
+    reps_spec (cfg := cfg) hR hS sc hgen hempty hrep n cfg.nrep g1 (ng1.trans hn)
+  have chk : ∀ (R : Item (View V) → Item (View V) → Bool), ReflOnRefs R →
+      checkReps R V0 cfg.loginit n cfg.nrep es1 = some [] := by
+    intro R hRR
+    have := chk2 R hRR []
+    rwa [List.append_nil] at this
+  have hpost : strip sc.evolvePost = [] := by
+    simp only [wfEmpty, Bool.and_eq_true, beq_iff_eq] at hempty
+    exact hempty.1.1
+  refine ⟨s2, es0, es1, V0, ?_, g2, ?_, ?_, ?_, ?_, ?_, chk, ?_, fun e he => (all2 e he).2, held2, ?_, hS⟩
+  · show execList (execE ops cfg sc) sc.evolvePost
+        (iter (execList (execE ops cfg sc) sc.evolveRep) cfg.nrep
+          (execList (execE ops cfg sc) sc.evolvePre { st with ngen := cfg.ngen })) = s2
+    rw [q1, q2, execList_of_strip_nil _ (fun st => execE_skip sc st) _ hpost]
+  · rw [tr2, tr1, List.append_assoc]
+  · rw [rp2, rp1]
+  · intro hall
+    rcases hcase with ⟨_, h1, h2⟩ | ⟨h0, _, _⟩
+    · exact ⟨h1, h2⟩
+    · rw [hall] at h0; cases h0
+  · intro hall
+    rcases hcase with ⟨h0, _, _⟩ | ⟨_, h1, h2⟩
+    · rw [hall] at h0; cases h0
+    · exact ⟨h1, h2⟩
+  · rw [reps2, rp1]
+  · intro R hRR
+    rcases hcase with ⟨_, h0, hv⟩ | ⟨_, he, hv⟩
+    · rw [h0, List.nil_append]
+      exact specTrace_reps R _ _ _ V0 _ es1 hl hs all2 (chk R hRR) hv.symm
+    · rw [he]
+      exact specTrace_init R _ _ _ V0 _ _ es1 hl hs rfl hv all2 (chk R hRR)
+  · intro h0
+    rw [h0] at q2
+    have : s2 = s1 := q2.symm
+    rw [this, rg1]
 
 end
 end Program
